@@ -153,10 +153,15 @@ bool splinetable<Alloc>::write_key(const char* key, const T& value){
 			new_key=allocate<char>(keylen);
 			new_value=allocate<char>(valuelen);
 		}catch(...){
-			deallocate(new_aux,naux+1);
-			deallocate(new_entry,2);
-			deallocate(new_key,keylen);
-			deallocate(new_value,valuelen);
+			//only what was actually obtained may be handed back
+			if(new_aux)
+				deallocate(new_aux,naux+1);
+			if(new_entry)
+				deallocate(new_entry,2);
+			if(new_key)
+				deallocate(new_key,keylen);
+			if(new_value)
+				deallocate(new_value,valuelen);
 			throw std::runtime_error("Unable to allocate storage for additional aux key");
 		}
 		//copy over existing data
